@@ -61,6 +61,16 @@ Definition env_map_step (fixe : bool) (e : map_entry) : env_outcome :=
   | EPresent => EnvUsesEntry false
   end.
 
+(* env loader, list parameters: an empty variable means "empty list"
+
+     if ev == "" { prv.Elem().Set(reflect.MakeSlice(prv.Elem().Type(), 0, 0)) }   <- prv.Elem() of a nil
+                                                                     pointer is the zero Value: Type() panics
+     [fix: if prv.IsNil() { prv.Set(reflect.New(rt)) } first]
+   every list parameter of an optional path (and deprecated global ones) sits behind a pointer that is nil
+   until the parameter is given *)
+Definition env_empty_list_step (fixl : bool) (pointer_is_nil : bool) : env_outcome :=
+  if pointer_is_nil then (if fixl then EnvUsesEntry true else EnvPanic) else EnvUsesEntry false.
+
 (* ------------------------------------------------------------------------------------- *)
 (* Conf.Validate / Path.validate: the constraints the property names *)
 
@@ -164,49 +174,48 @@ Definition record_path_ok (playback : bool) (rp : list Z) : bool :=
     contains (ph 72) rp && contains (ph 77) rp && contains (ph 83) rp)) &&   (* %Y %m %d %H %M %S *)
   (negb playback || contains (ph 102) rp).                     (* %f *)
 
-(* Path.validate in code order. [all] = every merged path (conf.Paths), [taken] = camera ids
-   whose primary already got a secondary (primary.RPICameraSecondaryWidth != 0). *)
+(* the switch on pconf.Source of Path.validate. [all] = every merged path (conf.Paths),
+   [taken] = camera ids whose primary already got a secondary (primary.RPICameraSecondaryWidth != 0) *)
+Definition source_ok (all : list pathc) (taken : list Z) (p : pathc) : bool :=
+  match p_source p with
+  | SPublisher => negb (negb (p_srt_pub p =? 0) && negb (srt_len_ok (p_srt_pub p)))   (* checkSRTPassphrase *)
+  | SStatic ok => ok                                        (* validateURL, SplitHostPort, rtpSDP *)
+  | SRedirect => p_redirect p && p_redirect_ok p            (* "source redirect must be filled", checkRedirect *)
+  | SRpi =>
+      p_rpi_ok p &&
+      if p_secondary p
+      then negb (Nat.eqb (primaries_with (p_cam p) all) 0)  (* "cannot find a primary RPI Camera stream" *)
+           && negb (existsb (Z.eqb (p_cam p)) taken)        (* "associated with multiple secondary streams" *)
+      else negb (Nat.ltb 1 (primaries_with (p_cam p) all))  (* "same camera ID ... used as source in two paths" *)
+  | SInvalid => false                                       (* "invalid source" *)
+  end.
+
+(* Path.validate: every `if cond { return err }` of the function, in code order, as the
+   conjunction of the negated conditions (the function has no other effect on these fields) *)
+Definition path_ok (playback : bool) (all : list pathc) (taken : list Z) (p : pathc) : bool :=
+  let s := p_source p in
+  let re := name_is_regex (p_name p) in
+  p_name_ok p                                                             (* name / regexp *)
+  && negb (negb (p_srt_pub p =? 0) && negb (src_eqb s SPublisher))        (* srtPublishPassphrase only with publisher *)
+  && negb (negb (src_eqb s SRedirect) && p_redirect p)                    (* sourceRedirect useless *)
+  && source_ok all taken p
+  && negb (p_on_demand p && src_eqb s SPublisher)                         (* sourceOnDemand useless with publisher *)
+  && negb (negb (p_on_demand p) && is_static s && re)                     (* regex + static source needs on demand *)
+  && negb (negb (p_srt_read p =? 0) && negb (srt_len_ok (p_srt_read p)))
+  && p_other_ok p                                                         (* forward, fallback *)
+  && negb (p_aa p && (re || p_on_demand p || p_run_demand p || negb (p_aa_src_ok p) || p_abs_ts p))
+  && record_path_ok playback (p_record_path p)
+  && negb (day_ns <? p_seg p)                                             (* maximum segment duration is 1 day *)
+  && negb (negb (p_del p =? 0) && (p_del p <? p_seg p))                   (* deleteAfter < segmentDuration *)
+  && negb (p_run_init p && re)
+  && negb (p_run_demand p && negb (src_eqb s SPublisher)).
+
 Definition validate_path (playback : bool) (all : list pathc) (taken : list Z) (p : pathc)
   : result (pathc * list Z) :=
-  let re := name_is_regex (p_name p) in
-  if negb (p_name_ok p) then Err else
-  (* common configuration errors *)
-  if negb (p_srt_pub p =? 0) && negb (src_eqb (p_source p) SPublisher) then Err else
-  if negb (src_eqb (p_source p) SRedirect) && p_redirect p then Err else
-  (* switch on the source *)
-  match
-    match p_source p with
-    | SPublisher => if negb (p_srt_pub p =? 0) && negb (srt_len_ok (p_srt_pub p)) then Err else Ok taken
-    | SStatic ok => if ok then Ok taken else Err
-    | SRedirect => if negb (p_redirect p) then Err else if p_redirect_ok p then Ok taken else Err
-    | SRpi =>
-        if negb (p_rpi_ok p) then Err else
-        if negb (p_secondary p) then
-          (* another primary with the same camera id *)
-          if Nat.ltb 1 (primaries_with (p_cam p) all) then Err else Ok taken
-        else
-          if Nat.eqb (primaries_with (p_cam p) all) 0 then Err else
-          if existsb (Z.eqb (p_cam p)) taken then Err else Ok (p_cam p :: taken)
-    | SInvalid => Err
-    end
-  with
-  | Err => Err
-  | Ok taken' =>
-      if p_on_demand p && src_eqb (p_source p) SPublisher then Err else
-      if negb (p_on_demand p) && is_static (p_source p) && re then Err else
-      if negb (p_srt_read p =? 0) && negb (srt_len_ok (p_srt_read p)) then Err else
-      if negb (p_other_ok p) then Err else
-      (* always available *)
-      if p_aa p && (re || p_on_demand p || p_run_demand p || negb (p_aa_src_ok p) || p_abs_ts p) then Err else
-      (* record *)
-      if negb (record_path_ok playback (p_record_path p)) then Err else
-      if day_ns <? p_seg p then Err else
-      if negb (p_del p =? 0) && (p_del p <? p_seg p) then Err else
-      (* hooks *)
-      if p_run_init p && re then Err else
-      if p_run_demand p && negb (src_eqb (p_source p) SPublisher) then Err else
-      Ok (set_regex p re, taken')
-  end.
+  if path_ok playback all taken p
+  then Ok (set_regex p (name_is_regex (p_name p)),
+           if src_eqb (p_source p) SRpi && p_secondary p then p_cam p :: taken else taken)
+  else Err.
 
 Fixpoint validate_paths (playback : bool) (all : list pathc) (taken : list Z) (ps : list pathc)
   : result (list pathc) :=
@@ -263,13 +272,22 @@ Definition path_documented_b (playback : bool) (p : pathc) : bool :=
   negb (src_eqb (p_source p) SInvalid) && negb (src_eqb (p_source p) (SStatic false)) &&
   (negb (p_redirect p) || src_eqb (p_source p) SRedirect).
 
+(* camera ids of the secondary rpiCamera streams *)
+Definition is_sec (p : pathc) : bool := src_eqb (p_source p) SRpi && p_secondary p.
+Definition sec_cams (ps : list pathc) : list Z := map p_cam (filter is_sec ps).
+Fixpoint nodup_b (l : list Z) : bool :=
+  match l with
+  | [] => true
+  | x :: r => negb (existsb (Z.eqb x) r) && nodup_b r
+  end.
+
+(* at most one primary per camera id; every secondary has a primary; at most one secondary per camera id *)
 Definition rpi_documented_b (ps : list pathc) : bool :=
   forallb (fun p =>
     negb (src_eqb (p_source p) SRpi) ||
-    if p_secondary p
-    then Nat.eqb (primaries_with (p_cam p) ps) 1 &&
-         Nat.eqb (length (filter (fun q => src_eqb (p_source q) SRpi && p_secondary q && (p_cam q =? p_cam p)) ps)) 1
-    else Nat.eqb (primaries_with (p_cam p) ps) 1) ps.
+    if p_secondary p then Nat.leb 1 (primaries_with (p_cam p) ps)
+    else Nat.leb (primaries_with (p_cam p) ps) 1) ps
+  && nodup_b (sec_cams ps).
 
 Definition documented_b (g : gconf) : bool :=
   (0 <? g_read_to g) && (0 <? g_write_to g) && is_pow2 (g_wqs g) && (g_udp g <=? 1472) &&
